@@ -83,58 +83,69 @@ def IsSplit : Op → Prop
   | .peersetFail => True
   | _ => False
 
+theorem stepGet_actual (st : St) (w : Nat) (env : Str) : (stepGet st w env).actual = st.actual := by
+  simp only [stepGet]
+  cases AList.get st.caches (w, env) with
+  | some _ => rfl
+  | none =>
+    simp only
+    cases hg : getSampler st env with
+    | none => rfl
+    | some r => exact (getSampler_pa st env hg).2
+
+theorem stepGet_pc (st : St) (w : Nat) (env : Str) (h : Sync st) :
+    Sync (stepGet st w env) ∧ (stepGet st w env).peerCount = st.peerCount := by
+  simp only [stepGet]
+  cases AList.get st.caches (w, env) with
+  | some _ => exact ⟨h, rfl⟩
+  | none =>
+    simp only
+    cases hg : getSampler st env with
+    | none => exact ⟨h, rfl⟩
+    | some r =>
+      obtain ⟨p, a⟩ := getSampler_pa st env hg
+      simp only
+      unfold Sync at h
+      refine ⟨?_, p.trans h⟩
+      unfold Sync
+      simp only [p, a, h]
+
 theorem step_actual (cfgs : List Config) (st : St) (op : Op) :
     (step cfgs st op).actual = srcStep st.actual op := by
   cases op with
-  | get w env =>
+  | get w env => exact stepGet_actual st w env
+  | feed w env n =>
     simp only [step, srcStep]
-    cases AList.get st.caches (w, env) with
-    | some _ => rfl
-    | none =>
-      simp only
-      cases hg : getSampler st env with
-      | none => rfl
-      | some r => exact (getSampler_pa st env hg).2
-  | setcfg j => simp only [step, srcStep]; cases cfgs[j]? <;> rfl
+    split <;> exact stepGet_actual st w env
+  | setcfg j => simp only [step, stepGet, srcStep]; cases cfgs[j]? <;> rfl
   | _ => rfl
 
 /-- every state change refreshes or keeps the stored count; after a callback it is in sync -/
 theorem step_peercb (cfgs : List Config) (st : St) :
     (step cfgs st .peercb).peerCount = refreshCount st.actual st.peerCount ∧ Sync (step cfgs st .peercb) :=
-  ⟨rfl, by simp only [step, updatePeers, Sync]; exact refresh_idem _ _⟩
+  ⟨rfl, by simp only [step, stepGet, updatePeers, Sync]; exact refresh_idem _ _⟩
 
 theorem step_pc (cfgs : List Config) (st : St) (op : Op) (h : Sync st) (hop : ¬ IsSplit op) :
     Sync (step cfgs st op) ∧ (step cfgs st op).peerCount = lastGoodStep st.peerCount op := by
   cases op with
-  | get w env =>
+  | get w env => exact stepGet_pc st w env h
+  | feed w env n =>
     simp only [step, lastGoodStep]
-    cases AList.get st.caches (w, env) with
-    | some _ => exact ⟨h, rfl⟩
-    | none =>
-      simp only
-      cases hg : getSampler st env with
-      | none => exact ⟨h, rfl⟩
-      | some r =>
-        obtain ⟨p, a⟩ := getSampler_pa st env hg
-        simp only
-        unfold Sync at h
-        refine ⟨?_, p.trans h⟩
-        unfold Sync
-        simp only [p, a, h]
+    split <;> exact stepGet_pc st w env h
   | peers n =>
-    simp only [step, lastGoodStep, updatePeers, Sync]
+    simp only [step, stepGet, lastGoodStep, updatePeers, Sync]
     refine ⟨refresh_idem _ _, ?_⟩
     simp [refreshCount]
   | peersFail =>
-    simp only [step, lastGoodStep, updatePeers, Sync]
+    simp only [step, stepGet, lastGoodStep, updatePeers, Sync]
     exact ⟨refresh_idem _ _, rfl⟩
   | peercb =>
-    simp only [step, lastGoodStep, updatePeers, Sync]
+    simp only [step, stepGet, lastGoodStep, updatePeers, Sync]
     exact ⟨refresh_idem _ _, h⟩
   | peerset n => exact absurd trivial hop
   | peersetFail => exact absurd trivial hop
   | setcfg j =>
-    simp only [step, lastGoodStep]
+    simp only [step, stepGet, lastGoodStep]
     cases cfgs[j]? <;> exact ⟨h, rfl⟩
   | clear => exact ⟨h, rfl⟩
   | wreload w => exact ⟨h, rfl⟩
@@ -168,5 +179,62 @@ theorem lastGood_eq (a0 : Option Nat) (ops : List Op) :
 
 theorem assertOk_throughput {k k' : Kind} (h : assertOk k k' = true) (ht : k'.isThroughput = true) : k = k' := by
   cases k <;> cases k' <;> first | rfl | (simp [assertOk, Kind.isThroughput] at h ht)
+
+/-! ## the event counters are touched by `feed` only -/
+
+theorem regStep_fed (st : St) (pfx : Str) (d : Def) : (regStep st pfx d).1.fed = st.fed := by
+  rcases regStep_cases st pfx d with ⟨id, i, _, _, _, he⟩ | ⟨he, _⟩ <;> rw [he] <;> rfl
+
+theorem createDyn_fed (st : St) (pfx : Str) (d : Def) : (createDyn st pfx d).1.fed = st.fed := by
+  have hf := regStep_fed st pfx d
+  unfold createDyn
+  by_cases hdet : d.kind = .determ
+  · simp only [hdet, if_true, updatePeers]
+  · simp only [hdet, if_false]
+    by_cases hc : (d.kind.isThroughput && d.useCluster) = true
+    · simp only [hc, if_true, updatePeers, hf]
+    · have hc' : (d.kind.isThroughput && d.useCluster) = false := by simpa using hc
+      simp only [hc', updatePeers, Bool.false_eq_true, if_false, hf]
+
+theorem createMany_fed (pfx : Str) : ∀ (ds : List Def) (st : St), (createMany st pfx ds).1.fed = st.fed
+  | [], _ => rfl
+  | d :: ds, st => by
+    simp only [createMany]
+    rw [createMany_fed pfx ds, createDyn_fed]
+
+theorem getSampler_fed (st : St) (env : Str) {r : St × List Slot} (hr : getSampler st env = some r) :
+    r.1.fed = st.fed := by
+  unfold getSampler at hr
+  cases hl : lookupCfg st.cfg env with
+  | none => rw [hl] at hr; cases hr
+  | some ec =>
+    rw [hl] at hr
+    cases ec with
+    | leaf d =>
+      simp only [Option.some.injEq] at hr
+      rw [← hr]; exact createDyn_fed st env d
+    | rules ds =>
+      simp only [Option.some.injEq] at hr
+      rw [← hr]
+      simp only [updatePeers]
+      exact createMany_fed (rulesPrefix env) ds st
+
+theorem stepGet_fed (st : St) (w : Nat) (env : Str) : (stepGet st w env).fed = st.fed := by
+  simp only [stepGet]
+  cases AList.get st.caches (w, env) with
+  | some _ => rfl
+  | none =>
+    simp only
+    cases hg : getSampler st env with
+    | none => rfl
+    | some r => exact getSampler_fed st env hg
+
+theorem step_fed (cfgs : List Config) (st : St) (op : Op) (hop : ∀ w e n, op ≠ .feed w e n) :
+    (step cfgs st op).fed = st.fed := by
+  cases op with
+  | get w env => exact stepGet_fed st w env
+  | feed w env n => exact absurd rfl (hop w env n)
+  | setcfg j => simp only [step]; cases cfgs[j]? <;> rfl
+  | _ => rfl
 
 end Refinery.Lemmas.SamplerRegistry
